@@ -121,15 +121,17 @@ func RedirectStdLogAt(l *Logger, level zapcore.Level) (func(), error) {
 }
 
 func redirectStdLogAt(l *Logger, level zapcore.Level) (func(), error) {
-	flags := log.Flags()
-	prefix := log.Prefix()
-	log.SetFlags(0)
-	log.SetPrefix("")
+	// Validate the level before touching the standard logger, so that a
+	// failed redirection leaves its flags and prefix as they were.
 	logger := l.WithOptions(AddCallerSkip(_stdLogDefaultDepth + _loggerWriterDepth))
 	logFunc, err := levelToFunc(logger, level)
 	if err != nil {
 		return nil, err
 	}
+	flags := log.Flags()
+	prefix := log.Prefix()
+	log.SetFlags(0)
+	log.SetPrefix("")
 	log.SetOutput(&loggerWriter{logFunc})
 	return func() {
 		log.SetFlags(flags)
